@@ -30,7 +30,7 @@ func genDFStream(r *sim.Rng, tier string, needCheck bool, max int) StreamRecipe 
 	for {
 		var s StreamRecipe
 		if r.Bool() {
-			w := genXZWCase(r, "quick", 0, false)
+			w := genXZWCase(r, "src", 0, false)
 			m := max
 			if w.XZ.BlockSize > 0 && int64(m) > 6*w.XZ.BlockSize {
 				m = int(6 * w.XZ.BlockSize)
